@@ -71,7 +71,7 @@ func verifMkProfile(tag string, sym, on int) verifProfile {
 	if on&pfUserMeta != 0 {
 		n = 1
 	} else if sym&pfUserMeta != 0 {
-		n = verifPick(tag+"-um", 0, 2)
+		n = verifPick(tag+"-um", 0, verifParam("maxcount", 2))
 	}
 	if n > 0 {
 		p.meta.UserMetadata = map[string]string{}
@@ -83,7 +83,7 @@ func verifMkProfile(tag string, sym, on int) verifProfile {
 	if on&pfTags != 0 {
 		n = 1
 	} else if sym&pfTags != 0 {
-		n = verifPick(tag+"-tags", 0, 2)
+		n = verifPick(tag+"-tags", 0, verifParam("maxcount", 2))
 	}
 	if n > 0 {
 		p.tags = map[string]string{}
